@@ -13,7 +13,10 @@
 // watcher takes it to ERROR); a destroy that arrives WHILE the environment is being
 // created (`newd`: the deployment is held open at a launch gate, the harness learns
 // the id from GetEnvironments and opens the gate only when the core has logged that
-// the teardown waits for the transition mutex). After every round: listing, ownership, KILL calls,
+// the teardown waits for the transition mutex); a creation that fails in acquireTasks' own tail, after everything was launched:
+// the OFFER for one host carried no hostname, the task placed there cannot be locked, next to siblings that lock fine (role outcome
+// `nohost`: every task the failed deployment launched must end up unowned — none may stay locked to the environment that
+// disappears). After every round: listing, ownership, KILL calls,
 // active detectors, cancelled calls; a final creation needing the same detector
 // checks that it is free again.
 package c06
@@ -372,6 +375,83 @@ func matrix() []fw.Case {
 			add("create-fails-kill-refused", b)
 		}
 	}
+	// a creation that fails in acquireTasks' OWN TAIL, after every requested task was launched: the OFFER for one host carried no
+	// hostname (role outcome `nohost`), so the task record the core builds from it cannot be locked (Task.isLocked wants hostname,
+	// agent id, offer id, task id, executor id and a parent role) — next to siblings that lock fine. acquireTasks declares the
+	// deployment failed, un-parents EVERY task it launched, appends them to the roster and gives no role its task; DEPLOY times
+	// out; the failure tail (GO_ERROR, forced teardown, KillTasks of the environment's tasks: none) releases and kills nothing; the
+	// tasks sit unowned in the roster until the next cleanup. Shapes: the unlockable task first / in the middle / last, a sibling
+	// on the SAME host (one offer: it cannot be locked either), nothing lockable at all, a single task, a DESTROY hook task that
+	// locks / that is the unlockable one, a pending call, a sibling that dies at launch / is still starting / is scripted to fail
+	// CONFIGURE (never reached); alone and next to a live environment on the same hosts; followed by a cleanup (CleanupTasks
+	// without ids), a KillTasks on the ids the master launched for it, or another creation (its pre-deployment cleanup), a
+	// creation needing the same detector, and a destroy of the failed environment (not found).
+	{
+		nh := func(cls, host int) *sx.Node { return ownh.T(cls, host, "nohost", "ok", "ok", "ok") }
+		shapes := [][]*sx.Node{
+			{ownh.OKT(11, 1), nh(12, 2), ownh.OKT(13, 3)},
+			{nh(11, 1), ownh.OKT(12, 2)},
+			{ownh.OKT(11, 1), ownh.OKT(12, 2), nh(13, 4)},
+			{ownh.OKT(11, 1), nh(12, 2), ownh.OKT(13, 2), ownh.OKT(14, 3)},
+			{nh(11, 1), nh(12, 2)},
+			{nh(11, 3)},
+			{ownh.OKT(11, 1), nh(12, 2), ownh.H(13, 3, 10, false, "ok", "ok")},
+			{ownh.OKT(11, 1), ownh.OKT(12, 4), ownh.H(13, 2, 10, false, "nohost", "ok")},
+			{ownh.OKT(11, 1), nh(12, 2), ownh.P()},
+			{ownh.T(11, 1, "die", "ok", "ok", "ok"), nh(12, 2), ownh.OKT(13, 3)},
+			{ownh.OKT(11, 1), nh(12, 2), ownh.T(13, 3, "slow", "ok", "ok", "ok")},
+			{ownh.OKT(11, 1), nh(12, 2), ownh.T(13, 3, "ok", "err", "ok", "failed")},
+		}
+		for i, roles := range shapes {
+			for v := 0; v < 3; v++ {
+				b := &ownh.B{}
+				withLive := (i+v)%2 == 0
+				var live int
+				if withLive {
+					live = b.Env("ok", []int{1}, ownh.OKT(1, 1), ownh.OKT(2, 2), ownh.OKT(3, 3))
+				}
+				k := b.Env("ok", []int{3}, roles...)
+				p := probe(b, []int{3})
+				if withLive {
+					b.Round(ownh.New(live))
+				}
+				b.Round(ownh.New(k)).Round(ownh.Rel(k))
+				switch v {
+				case 0:
+					b.Round(ownh.Cleanup()).Round(ownh.New(p))
+				case 1:
+					b.Round(ownh.KillEnv(k)).Round(ownh.New(p)).Round(ownh.Cleanup())
+				default:
+					b.Round(ownh.New(p)).Round(ownh.Destroy(k, true, false, false)).Round(ownh.Cleanup())
+				}
+				if withLive {
+					b.Round(ownh.Destroy(live, false, false, false)).Round(ownh.Cleanup())
+				}
+				add("create-fails-lock", b)
+			}
+		}
+		// … and a destroy that arrives while that creation is in flight (the deployment is open until its timeout: nothing the
+		// roles could become ACTIVE with): the teardown waits behind DEPLOY and is served on an environment that references no task
+		for i, roles := range [][]*sx.Node{shapes[0], shapes[1], shapes[3], shapes[6]} {
+			for _, f := range []int{0, 4, 5, 1} {
+				force, allow, keep := flags(f)
+				b := &ownh.B{}
+				withLive := (i+f)%2 == 1
+				var live int
+				if withLive {
+					live = b.Env("ok", []int{3}, ownh.OKT(81, 1), ownh.OKT(82, 2))
+					b.Round(ownh.New(live))
+				}
+				k := b.Env("ok", []int{1}, roles...)
+				p := probe(b, []int{2})
+				b.Round(ownh.NewD(k, force, allow, keep)).Round(ownh.New(p)).Round(ownh.Cleanup())
+				if withLive {
+					b.Round(ownh.Destroy(live, false, false, false))
+				}
+				add("create-destroy-overlap-lock-fails", b)
+			}
+		}
+	}
 	// pending calls, two destroys at once, destroy next to another environment's control
 	{
 		b := &ownh.B{}
@@ -388,7 +468,7 @@ func genCase(r *rng.R) fw.Case {
 	b := &ownh.B{}
 	nEnv := r.Range(1, 3)
 	for i := 0; i < nEnv; i++ {
-		b.RandEnv(r, ownh.EnvOpts{FailP: 200, HookP: 350, CallP: 150})
+		b.RandEnv(r, ownh.EnvOpts{FailP: 200, HookP: 350, CallP: 150, NoHostP: 120})
 	}
 	probe := b.Env("ok", []int{r.Range(1, 4)}, ownh.OKT(91, 4))
 	var created []int
@@ -396,6 +476,7 @@ func genCase(r *rng.R) fw.Case {
 	nRounds := r.Range(3, 7)
 	lossTag := ""
 	overlapTag := ""
+	lockTag := ""
 	for i := 0; i < nRounds; i++ {
 		// now and then an executor (or, once every environment exists, an agent other than the probe's) is lost: a round of its own
 		if len(created) > 0 && r.P(1, 6) {
@@ -423,6 +504,24 @@ func genCase(r *rng.R) fw.Case {
 		for j := 0; j < n; j++ {
 			switch {
 			case next < nEnv && (len(created) == 0 || r.P(1, 3)):
+				if b.EnvNoHost(next) {
+					// the offers without hostname are those of THIS creation only if it is the only creation of its round
+					if len(newHere) > 0 {
+						ops = append(ops, ownh.Cleanup())
+						continue
+					}
+					lockTag = "with-lock-failure"
+					if r.P(1, 5) {
+						ops = append(ops, ownh.NewD(next, r.P(1, 2), r.P(1, 2), r.P(1, 3)))
+						overlapTag = "with-overlap"
+					} else {
+						ops = append(ops, ownh.New(next))
+					}
+					newHere = append(newHere, next)
+					next++
+					j = n
+					break
+				}
 				if j == 0 && r.P(1, 5) {
 					// the creation is destroyed while it is in flight: a round of its own
 					ops = append(ops, ownh.NewD(next, r.P(1, 2), r.P(1, 2), r.P(1, 3)))
@@ -452,7 +551,15 @@ func genCase(r *rng.R) fw.Case {
 				}
 				switch kind {
 				case 0, 1, 2:
-					ops = append(ops, ownh.Ctl(k, rng.Pick(r, []string{"START", "START", "STOP", "RESET", "CONFIGURE"})))
+					evs := []string{"START", "START", "STOP", "RESET", "CONFIGURE"}
+					if startGoesToError(b.Envs[k]) {
+						// a START that takes a task to ERROR while its siblings reach RUNNING wakes the environment's watcher, which STOPs them
+						// 0.5 s later — unobserved by the harness (only a loss operation waits for it): whether a later snapshot shows the
+						// siblings RUNNING or CONFIGURED would depend on how long the following rounds take (a creation that fails at
+						// deployment takes its whole deploy_timeout). The systematic part covers that state with the destroy right behind it.
+						evs = []string{"STOP", "STOP", "RESET", "RESET", "CONFIGURE"}
+					}
+					ops = append(ops, ownh.Ctl(k, rng.Pick(r, evs)))
 				case 3, 4, 5, 6, 7:
 					ops = append(ops, ownh.Destroy(k, r.P(1, 3), r.P(1, 2), r.P(1, 3)))
 				case 8:
@@ -473,7 +580,20 @@ func genCase(r *rng.R) fw.Case {
 	if overlapTag != "" {
 		tags = append(tags, "random-"+overlapTag)
 	}
+	if lockTag != "" {
+		tags = append(tags, "random-"+lockTag)
+	}
 	return fw.Case{Input: b.String(), Tags: tags}
+}
+
+// startGoesToError: a task role of the environment is scripted to answer START with an error and go to ERROR.
+func startGoesToError(env *sx.Node) bool {
+	for _, ro := range env.At(2).List {
+		if ro.At(0).Str() == "T" && ro.At(5).Str() == "START:err" {
+			return true
+		}
+	}
+	return false
 }
 
 // lossTarget picks a task role of the environment whose executor / agent may be lost: only in
@@ -532,8 +652,11 @@ func init() {
 			"(all 8 flag combinations once, force+keepTasks and one more every time), one executor / agent serving two environments, a lost DESTROY hook task, a loss after a destroy that kept the tasks, " +
 			"the loss hitting inside the creation's CONFIGURE (held at a gate) which then fails (stay / ERROR: failure tail) or succeeds (destroyed afterwards, keepTasks), " +
 			"a destroy issued WHILE the environment is being created (deployment held open at a launch gate until the core has logged that the teardown waits for the transition mutex): creation succeeding (plain tasks, DESTROY hooks at 1-2 weights, pending call) / " +
-			"failing at deployment (held task dies, sibling dies, slow sibling) / failing at configuration (stay, ERROR, with hook, with call), all 8 flag combinations on four shapes, force x keepTasks on the others, every third next to a live environment; random part: 1–3 environments (20% of roles with a scripted failure, " +
-			"35% with hooks, 15% with pending calls), 3–7 rounds of 1–2 concurrent requests dominated by destroys, one round in six a lost executor / agent instead, one creation in five destroyed while in flight (random flags); each scenario = one real core in its own process; " +
+			"failing at deployment (held task dies, sibling dies, slow sibling) / failing at configuration (stay, ERROR, with hook, with call), all 8 flag combinations on four shapes, force x keepTasks on the others, every third next to a live environment; " +
+			"a creation failing in acquireTasks' own tail after every task was launched (the OFFER for one host carried no hostname: the task placed there cannot be locked): the unlockable task first / in the middle / last of 2-4, " +
+			"a sibling sharing the offer, nothing lockable, a single task, a DESTROY hook task that locks / that is the unlockable one, a pending call, a sibling dying at launch / still starting / scripted to fail CONFIGURE, " +
+			"each alone and next to a live environment on the same hosts, followed by CleanupTasks / KillTasks on its tasks / another creation and a destroy of the failed environment, and four of the shapes destroyed while in flight (4 flag combinations); random part: 1–3 environments (20% of roles with a scripted failure, " +
+			"35% with hooks, 15% with pending calls, 12% of the environments with one task role on an offer without hostname), 3–7 rounds of 1–2 concurrent requests dominated by destroys, one round in six a lost executor / agent instead, one creation in five destroyed while in flight (random flags); each scenario = one real core in its own process; " +
 			"non-trivial = >=3 rounds, >=3 requests, a creation and (a destroy or a second creation); distinct by input text",
 		Shrink:  ownh.Shrink,
 		Workers: 6,
@@ -556,6 +679,9 @@ func init() {
 			"whether a destroy issued during a creation really overlapped it is read from the core's log line 'environment teardown attempt delayed: transition … in progress' (observation field OV, evidence tags overlap-real:<transition> / overlap-sequential); " +
 				"a destroy that was not delayed is judged as a sequential one, nothing is concluded from timing",
 			"release failures cannot be scripted through the API (they need a task locked by another environment); that branch is covered by the model and its theorems only",
+			"role outcome `nohost`: the simulated master sends the OFFER for the role's host with an EMPTY hostname (mesos.Offer.Hostname is a plain string field; ids, attributes, resources as ever) from the moment the creation is requested until it has returned — " +
+				"the creation is the only one of its round, so these offers are its own; not combined with reuseUnlockedTasks (the model admits offers without hostname only without reuse); " +
+				"whether the core had processed the TASK_RUNNING of a task that such a creation leaves unowned in the roster by the time a sweep reaches it (KILL or silent drop) is read off the later snapshots of the scenario",
 		},
 	})
 }
